@@ -114,6 +114,9 @@ class ChartGen:
         r, k = self.r, self.k
         c = r.random()
         if c < k.time_preds:
+            if r.random() < 0.3:
+                # … or its negation, which passing time alone makes false
+                return r.choice(['not after(%d)', 'not idle(%d)']) % r.randint(2, 8)
             return r.choice(['after(%d)', 'idle(%d)']) % r.randint(0, 3)
         if evented and c < 0.5:
             return r.choice(['event.v > 1', 'event.v % 2 == 0', 'event.b', 'not event.b',
@@ -399,6 +402,15 @@ def apply_edits(sc, edits):
                 sc.state_for(e[1]).initial = e[2]
             elif e[0] == 'memory':
                 sc.state_for(e[1]).memory = e[2]
+            elif e[0] == 'rotate':
+                # (the transition is named by its place in the list of transitions at that moment)
+                t = sc.transitions[e[1]]
+                kw = {}
+                if e[2] is not None:
+                    kw['new_source'] = e[2]
+                if e[3] != '<keep>':
+                    kw['new_target'] = e[3]
+                sc.rotate_transition(t, **kw)
         except StatechartError:
             pass
 
@@ -423,7 +435,7 @@ def plan_edits(r, sc, need_wf=True):
         if not names:
             break
         c = r.random()
-        if c < 0.65:
+        if c < 0.55:
             # prefer moving a state that has something below it
             deep = [n for n in names if sc.children_for(n)]
             a = r.choice(deep) if deep and r.random() < 0.7 else r.choice(names)
@@ -445,8 +457,21 @@ def plan_edits(r, sc, need_wf=True):
                     pr = r.choice([0, 0, 1, -1])
                     do(['addtrans', a, a, ev, pr])
                     do(['addtrans', r.choice(up), None if r.random() < 0.3 else a, ev, pr])
-        elif c < 0.85:
-            a = r.choice(names)
+        elif c < 0.7:
+            # a transition gets another source (and perhaps another target)
+            ts = sc.transitions
+            srcs = [n for n in sc.states if owners_ok(n)]
+            if not ts or not srcs:
+                continue
+            i = r.randrange(len(ts))
+            src = r.choice(srcs)
+            if src == ts[i].source:
+                continue
+            tg = '<keep>' if r.random() < 0.6 else r.choice([None] + [n for n in sc.states if n != sc.root])
+            do(['rotate', i, src, tg])
+        elif c < 0.87:
+            # (the root state can be renamed like any other)
+            a = r.choice(names + [sc.root])
             # a new name that sorts elsewhere than the old one
             new = r.choice(['a', 'm', 'z']) + a + r.choice(['', 'x'])
             if new in sc.states:
